@@ -390,3 +390,102 @@ Theorem C01_static_no_throw_on_dag_partial s s1 :
   exists s', static_satisfy s = Ok s' /\ base s' = cleanup (base s1).
 Proof. exact (static_no_throw_on_dag_partial s s1). Qed.
 Print Assumptions C01_static_no_throw_on_dag_partial.
+
+(* ================= static_no_throw_on_dag, PROVED (Vpsc/StaticGeom.v, StaticHeapOrd.v, StaticDag.v).
+   Hypothesis `dag_orderb`: the DFS order of Blocks::totalOrder lists every variable exactly once and every constraint
+   goes forward in it (StaticInvB.is_dag - evaluated on every DAG instance of checks/c01.py - plus "no variable
+   twice"; both are decided by evaluating the model's total_order, nothing about the solver proper is assumed).
+   Conclusion: Solver::satisfy RETURNS (no UnsatisfiedConstraint, and the model's fuel - also the null-heap cases it
+   stands for - suffices) and every constraint has slack >= 0 EXACTLY in the returned state.
+   The proof is the classic VPSC argument made precise for this implementation: (1) heap order under lazily stale
+   keys (StaticDag.Rdom / hord: a node whose key is current dominates the snapshot keys of its descendants; kept by
+   compareAndLink, deleteMin, merge, the out-of-date re-insertion loop and by block moves), so the root findMinInConstraint
+   returns is a most violated in-constraint (C01_static_heap_root_most_violated); (2) geometry of one merge in scaled
+   coordinates (C01_static_merge_shift: the right side moves right by rr >= 0, the left side left by -rl >= 0,
+   rr - rl = violation, everything else stays: the merged block sits between the two optima); (3) the invariant "the
+   violation of every in-constraint of the current block is at most what every processed variable of that block has
+   moved left since mergeLeft started" (StaticDag.geo g_3), which is what "most violated first" buys. *)
+From Adapt Require Import Vpsc.StaticGeom Vpsc.StaticHeapOrd Vpsc.StaticDag.
+
+Theorem C01_static_no_throw_on_dag vs cs :
+  wf_vars vs -> wf_cons vs cs -> dag_orderb (init vs cs) = true ->
+  exists s', static_satisfy (static_init vs cs) = Ok s' /\
+             forall c, (c < length cs)%nat -> 0 <= slack_val (base s') c.
+Proof. exact (static_no_throw_on_dag vs cs). Qed.
+Print Assumptions C01_static_no_throw_on_dag.
+
+(* the same without the fuel argument (kept: it is the statement that does not depend on the fuel bounds) *)
+Theorem C01_static_no_throw_on_dag_modulo_fuel vs cs :
+  wf_vars vs -> wf_cons vs cs -> dag_orderb (init vs cs) = true ->
+  static_satisfy (static_init vs cs) <> OutOfFuel ->
+  exists s', static_satisfy (static_init vs cs) = Ok s' /\
+             forall c, (c < length cs)%nat -> 0 <= slack_val (base s') c.
+Proof. exact (static_no_throw_on_dag_modulo_fuel vs cs). Qed.
+Print Assumptions C01_static_no_throw_on_dag_modulo_fuel.
+
+(* what the boolean hypothesis says: total_order returns a repetition-free order that lists every right end and in
+   which every constraint's left end comes strictly before its right end *)
+Theorem C01_static_dag_order_spec vs cs :
+  wf_cons vs cs -> dag_orderb (init vs cs) = true ->
+  exists order, total_order (init vs cs) = Ok order /\ topo_order cs order.
+Proof. exact (dag_orderb_topo vs cs). Qed.
+Print Assumptions C01_static_dag_order_spec.
+
+(* bit "all_satb" of Vpsc/StaticInvB.v for every run: after the merge pass every constraint holds exactly *)
+Theorem C01_static_merge_pass_all_sat vs cs order s1 :
+  wf_vars vs -> wf_cons vs cs ->
+  total_order (init vs cs) = Ok order -> topo_order cs order ->
+  merge_pass (static_init vs cs) = Ok s1 ->
+  forall c, (c < length (scons (base s1)))%nat -> 0 <= slack_val (base s1) c.
+Proof. exact (merge_pass_all_sat vs cs order s1). Qed.
+Print Assumptions C01_static_merge_pass_all_sat.
+
+(* bit 16 (root_minb) for every state of mergeLeft's loop: the root findMinInConstraint delivers is a most violated
+   in-constraint of the current block, although the keys in the pairing heap are refreshed lazily *)
+Theorem C01_static_heap_root_most_violated done v Yb cs n s r c0 :
+  MLI done v Yb cs n s r -> root_ok s r (Some c0) ->
+  forall c, (c < length cs)%nat -> blk_of (base s) (cr (Kc cs c)) = r -> blk_of (base s) (cl (Kc cs c)) <> r ->
+    slack_val (base s) c0 <= slack_val (base s) c.
+Proof. exact (MLI_root_min done v Yb cs n s r c0). Qed.
+Print Assumptions C01_static_heap_root_most_violated.
+
+(* one Block::merge across a violated constraint, in scaled coordinates Yof = scale * position *)
+Theorem C01_static_merge_shift b c (sw : bool) :
+  book b -> wf_vars (svars b) -> all_blk_ok b -> (c < length (scons b))%nat ->
+  let r := blk_of b (cr (con_of b c)) in
+  let l := blk_of b (cl (con_of b c)) in
+  l <> r -> slack_val b c < 0 ->
+  let b' := merge_into b (if sw then l else r) (if sw then r else l) c (if sw then - mdist b c else mdist b c) in
+  exists rr rl, 0 <= rr /\ rl <= 0 /\ rr - rl == - slack_val b c /\
+    (forall u, (u < length (svars b))%nat ->
+       (blk_of b u = r -> Yof b' u == Yof b u + rr) /\
+       (blk_of b u = l -> Yof b' u == Yof b u + rl) /\
+       (blk_of b u <> r -> blk_of b u <> l -> Yof b' u == Yof b u)) /\
+    all_blk_ok b'.
+Proof. exact (merge_shift b c sw). Qed.
+Print Assumptions C01_static_merge_shift.
+
+(* ---- the DFS hypothesis discharged for RANKED constraint graphs (Vpsc/StaticDfs.v): if every constraint goes from a
+   lower to a higher rank and ranks are bounded by the number of variables, Blocks::totalOrder / dfsVisit returns -
+   within its recursion fuel - an order that lists every variable exactly once with every constraint going forward.
+   Every finite acyclic graph has such a rank; the constraint sets of removeoverlaps come with one (position in the
+   strict total order CmpNodePos, Rect/Scanline.gen_acyclic + PipelineStatic.rank_lt). *)
+From Adapt Require Import Vpsc.StaticDfs.
+
+Theorem C01_static_total_order_topo s (rk : nat -> nat) :
+  wf_cons (svars s) (scons s) ->
+  (forall c, (c < length (scons s))%nat -> (rk (cl (con_of s c)) < rk (cr (con_of s c)))%nat) ->
+  (forall v, (rk v <= length (svars s))%nat) ->
+  exists order, total_order s = Ok order /\ topo_order (scons s) order.
+Proof. exact (total_order_topo s rk). Qed.
+Print Assumptions C01_static_total_order_topo.
+
+(* static_no_throw_on_dag with NO hypothesis about the DFS: on every ranked DAG Solver::satisfy returns (no
+   UnsatisfiedConstraint, no fuel exhaustion, no null heap) and every constraint has slack >= 0 exactly *)
+Theorem C01_static_no_throw_on_ranked_dag vs cs (rk : nat -> nat) :
+  wf_vars vs -> wf_cons vs cs ->
+  (forall k, In k cs -> (rk (cl k) < rk (cr k))%nat) -> (forall v, (rk v <= length vs)%nat) ->
+  exists s', static_satisfy (static_init vs cs) = Ok s' /\
+             forall c, (c < length cs)%nat -> 0 <= slack_val (base s') c.
+Proof. exact (static_no_throw_on_ranked_dag vs cs rk). Qed.
+Print Assumptions C01_static_no_throw_on_ranked_dag.
